@@ -41,7 +41,7 @@ def cases(draw, tier):
                              min_nodes=2, max_subgraphs=2,
                              ops=BW_OPS if bw else CONST_OPS,
                              **({'force_fam': 3, 'fc_plain': True} if bw else {}),
-                             reuse_const=True, share_buffers=True, dedup=True,
+                             reuse_const=True, share_buffers=True, dedup=True, same_name_sharers=True,
                              dim_choices=[2, 4], reuse_odds=1, share_odds=1,
                              # incl. degenerate contents (all-zero / constant
                              # tied weights are what initialisers produce)
